@@ -4,8 +4,8 @@
    guards are REGENERATED from odl/util/numerics.py into Gen/Padding.v.
    [offset_ok n n_out off]  : 0 <= off and off + min <= max (the block fits);
    [pad_legal m n n_out off]: the padding lengths the docstring allows for mode m. *)
-From Coq Require Import ZArith Reals List Bool.
-From Verif Require Import Base.Num Base.Vec Base.VecR C16.Syntax Gen.Padding C16.Model C16.Proofs.
+From Coq Require Import ZArith Reals Lia Lra List Bool.
+From Verif Require Import Base.Num Base.Vec Base.VecR C16.Syntax Gen.Padding C16.Model C16.ModelOp C16.Proofs.
 Import ListNotations.
 Local Open Scope R_scope.
 
@@ -61,6 +61,75 @@ Theorem resize_adjoint : forall (m : pmode) (x y : list R) (off : Z),
 Proof. exact adjoint_all. Qed.
 Print Assumptions resize_adjoint.
 
+(* T1 (operator range, per axis).  [resize_axis fixed a n_new off bl br] is the
+   range axis built by _resize_discr from the domain axis a (interval, cells,
+   nodes_on_bdry flags); [num_lr] the numbers of cells added left/right;
+   [axis_valid]: n >= 1, and n >= 2 when a node lies on the boundary.
+   With the same boundary convention the range has the SAME cell side and its
+   interval is the domain interval enlarged by exactly nl cells on the left and
+   nr on the right, nl + nr = n_new - n.  (Holds for both sign conventions
+   [fixed]; for an extension nl = offset, nr = n_new - n - offset.) *)
+Theorem range_covers_enlarged_domain :
+  forall (fixed : bool) (a : @axis R) (n_new : Z) (off : option Z),
+  axis_valid a -> (1 <= n_new)%Z ->
+  (a_bl a = true -> (2 <= n_new)%Z) -> (a_br a = true -> (2 <= n_new)%Z) ->
+  let r := resize_axis fixed a n_new off (a_bl a) (a_br a) in
+  let nl := fst (num_lr fixed (a_n a) n_new off) in
+  let nr := snd (num_lr fixed (a_n a) n_new off) in
+  cell_side r = cell_side a /\
+  a_min r = a_min a - IZR nl * cell_side a /\
+  a_max r = a_max a + IZR nr * cell_side a /\
+  (nl + nr = n_new - a_n a)%Z.
+Proof. exact resize_axis_covers. Qed.
+Print Assumptions range_covers_enlarged_domain.
+
+(* T1: any boundary convention for the range (discr_kwargs): same cell side, and
+   the range GRID is the domain grid continued by nl / nr points. *)
+Theorem range_grid_continues_domain_grid :
+  forall (fixed : bool) (a : @axis R) (n_new : Z) (off : option Z) (bl br : bool),
+  axis_valid a -> (1 <= n_new)%Z -> (bl = true -> (2 <= n_new)%Z) -> (br = true -> (2 <= n_new)%Z) ->
+  let r := resize_axis fixed a n_new off bl br in
+  let nl := fst (num_lr fixed (a_n a) n_new off) in
+  let nr := snd (num_lr fixed (a_n a) n_new off) in
+  cell_side r = cell_side a /\
+  gmin r = gmin a - IZR nl * cell_side a /\
+  gmax r = gmax a + IZR nr * cell_side a.
+Proof. exact resize_axis_grid. Qed.
+Print Assumptions range_grid_continues_domain_grid.
+
+(* T1: _offset_from_spaces recovers |nl| (hence the offset of an extension). *)
+Theorem offset_from_spaces_recovers :
+  forall (fixed : bool) (a : @axis R) (n_new : Z) (off : option Z) (bl br : bool),
+  axis_valid a -> (1 <= n_new)%Z -> (bl = true -> (2 <= n_new)%Z) -> (br = true -> (2 <= n_new)%Z) ->
+  0 < cell_side a ->
+  offset_float a (resize_axis fixed a n_new off bl br)
+  = Rabs (IZR (fst (num_lr fixed (a_n a) n_new off))).
+Proof. exact offset_float_resize. Qed.
+Print Assumptions offset_from_spaces_recovers.
+
+(* FULL STATEMENT, FALSE of the code as it stands (finding
+   range-restrict-explicit-offset):  "a restricting operator built with
+   ran_shp and an explicit offset o has the sub-interval starting o cells
+   inside the domain as its range".  The code uses num_l = +o also when
+   shrinking, so the range starts o cells to the LEFT of the domain:
+     ResizingOperator(uniform_discr(0, 1, 10), ran_shp=(6,), offset=2).range
+     is uniform_discr(-0.2, 0.4, 6), not uniform_discr(0.2, 0.8, 6). *)
+Theorem range_restrict_explicit_offset_refuted :
+  exists (a : @axis R) n_new o, axis_valid a /\ (0 < o)%Z /\ (o + n_new <= a_n a)%Z /\
+    a_min (resize_axis false a n_new (Some o) (a_bl a) (a_br a)) < a_min a.
+Proof. exact range_restrict_offset_refuted. Qed.
+(* ... and what holds with the repaired sign convention (proposed fix) *)
+Theorem range_restrict_explicit_offset_partial :
+  forall (a : @axis R) (n_new o : Z),
+  axis_valid a -> (1 <= n_new < a_n a)%Z ->
+  (a_bl a = true -> (2 <= n_new)%Z) -> (a_br a = true -> (2 <= n_new)%Z) ->
+  let r := resize_axis true a n_new (Some o) (a_bl a) (a_br a) in
+  cell_side r = cell_side a /\
+  a_min r = a_min a + IZR o * cell_side a /\
+  a_max r = a_max a - IZR (a_n a - n_new - o) * cell_side a.
+Proof. exact range_restrict_offset_fixed. Qed.
+Print Assumptions range_restrict_explicit_offset_partial.
+
 (* non-vacuity: the side conditions hold e.g. for 3 -> 7 with offset 2 in every mode,
    5 -> 2 with offset 3, and periodic padding as long as the array itself *)
 Example side_conditions_satisfiable :
@@ -71,3 +140,10 @@ Example illegal_exists :
   offset_ok 3 7 3 && negb (pad_legal PSymmetric 3 7 3) && negb (pad_legal PPeriodic 3 8 4)
   && negb (pad_legal POrder1 1 3 1) && negb (pad_legal POrder0 0 2 1) = true.
 Proof. vm_compute; reflexivity. Qed.
+Example axis_valid_example : axis_valid unit10 /\ 0 < cell_side unit10.
+Proof.
+  split; [unfold axis_valid; cbn; repeat split; try lia; discriminate|].
+  unfold cell_side, gmin, gmax, unit10; cbn [a_min a_max a_n a_bl a_br].
+  change (10 =? 1)%Z with false; cbv iota; numR.
+  change (2 * 10)%Z with 20%Z; change (10 - 1)%Z with 9%Z. lra.
+Qed.
